@@ -57,6 +57,7 @@ class ModelGroup:
         return {"models": tuple(self.models), "name": self._name}
 
     def __setstate__(self, state: Mapping) -> None:
+        self._log = logging.getLogger(__name__)
         self.models = list(state["models"])
         self._name = state["name"]
 
